@@ -343,8 +343,9 @@ func cameraStage(r *ev.Run) {
 			if o.Dist(tg) < 1e-9 {
 				continue
 			}
-			for _, fov := range []float64{0.3, math.Pi / 2, 2.5, 0} {
-				for _, sz := range [][2]float64{{4, 4}, {7, 3}, {2, 6}, {1, 1}} {
+			// a negative field of view is the documented way to make the camera look the other way
+			for _, fov := range []float64{0.3, math.Pi / 2, 2.5, 0, -math.Pi / 2, -0.4} {
+				for _, sz := range [][2]float64{{4, 4}, {7, 3}, {2, 6}, {1, 1}, {3, 4}, {5, 4}} {
 					cam := render3d.NewCameraAt(o, tg, fov)
 					r.Eval(1)
 					nc := ncase{"camera", fmt.Sprintf("origin %v target %v fov %g image %gx%g", o, tg, fov, sz[0], sz[1]), nil}
@@ -355,8 +356,29 @@ func cameraStage(r *ev.Run) {
 					cast, uncast := cam.Caster(sz[0], sz[1]), cam.Uncaster(sz[0], sz[1])
 					// the centre ray goes to the target
 					ctr := cast(sz[0]/2, sz[1]/2).Normalize()
-					if !(ctr.Dist(tg.Sub(o).Normalize()) <= 1e-9) {
+					toTarget := tg.Sub(o).Normalize()
+					if fov < 0 {
+						toTarget = toTarget.Scale(-1)
+					}
+					if !(ctr.Dist(toTarget) <= 1e-9) {
 						r.Violation("camera/centre", fmt.Sprintf("%s: the central ray %v does not point at the target", nc.Params, ctr), nc)
+					}
+					// the field of view is the angle subtended by the larger image dimension; the smaller one subtends
+					// the same view plane in proportion (square pixels)
+					half := math.Abs(math.Tan(cam.FieldOfView / 2))
+					wantX, wantY := half, half
+					if sz[0] > sz[1] {
+						wantY = half * sz[1] / sz[0]
+					} else {
+						wantX = half * sz[0] / sz[1]
+					}
+					ctrRay := cast(sz[0]/2, sz[1]/2)
+					tanTo := func(x, y float64) float64 {
+						d := cast(x, y)
+						return d.Cross(ctrRay).Norm() / d.Dot(ctrRay)
+					}
+					if gx, gy := tanTo(0, sz[1]/2), tanTo(sz[0]/2, 0); !(math.Abs(gx-wantX) <= 1e-9*(1+wantX)) || !(math.Abs(gy-wantY) <= 1e-9*(1+wantY)) {
+						r.Violation("camera/field-of-view", fmt.Sprintf("%s: the left and top edges of the image are seen at tan(angle) = %g and %g from the central ray; field of view %g over the larger dimension with square pixels gives %g and %g", nc.Params, gx, gy, cam.FieldOfView, wantX, wantY), nc)
 					}
 					for x := 0.0; x <= sz[0]; x++ {
 						for y := 0.0; y <= sz[1]; y++ {
